@@ -220,6 +220,114 @@ def norm(j):
     return ("Rq", tabs, relation(j["relation"]))
 
 
+# ------------------------------------------------------------------------------------------------ renaming identifiers
+
+def rename_ids(j, fc, ft):
+    """RQ JSON -> RQ JSON with every column id c replaced by fc(c) and every table id t by ft(t); everything else (literals,
+    spans, names) is copied.  Walks the same structure as norm() and fails as loudly on anything unknown."""
+    import copy
+
+    def r_expr(e):
+        e = dict(_fields(e, ("kind",), ("span",), "Expr"))
+        tag, v = _one(e["kind"], "ExprKind")
+        if tag == "ColumnRef":
+            e["kind"] = {"ColumnRef": fc(_cid(v))}
+        elif tag in ("Literal", "Param"):
+            e["kind"] = copy.deepcopy(e["kind"])
+        elif tag == "SString":
+            e["kind"] = {"SString": r_interp(v)}
+        elif tag == "Case":
+            e["kind"] = {"Case": [{"condition": r_expr(c["condition"]), "value": r_expr(c["value"])} for c in v]}
+        elif tag == "Operator":
+            e["kind"] = {"Operator": {"name": v["name"], "args": [r_expr(a) for a in v["args"]]}}
+        elif tag == "Array":
+            e["kind"] = {"Array": [r_expr(a) for a in v]}
+        else:
+            _bad("unknown ExprKind", e["kind"])
+        return e
+
+    def r_interp(items):
+        out = []
+        for it in items:
+            tag, v = _one(it, "InterpolateItem")
+            if tag == "String":
+                out.append(copy.deepcopy(it))
+            elif tag == "Expr":
+                v = dict(_fields(v, ("expr",), ("format",), "InterpolateItem::Expr"))
+                v["expr"] = r_expr(v["expr"])
+                out.append({"Expr": v})
+            else:
+                _bad("unknown InterpolateItem", it)
+        return out
+
+    def r_sorts(js):
+        return [{"direction": s_["direction"], "column": fc(_cid(s_["column"]))} for s_ in js]
+
+    def r_range(r):
+        r = _fields(r, ("start", "end"), (), "Range")
+        return {"start": None if r["start"] is None else r_expr(r["start"]), "end": None if r["end"] is None else r_expr(r["end"])}
+
+    def r_tref(t):
+        t = dict(_fields(t, ("source", "columns", "name", "prefer_cte"), (), "TableRef"))
+        t["source"] = ft(_cid(t["source"]))
+        t["columns"] = [[copy.deepcopy(c[0]), fc(_cid(c[1]))] for c in t["columns"]]
+        return t
+
+    def r_window(w):
+        w = _fields(w, ("frame", "partition", "sort"), (), "Window")
+        f = _fields(w["frame"], ("kind", "range"), (), "WindowFrame")
+        return {"frame": {"kind": f["kind"], "range": r_range(f["range"])}, "partition": [fc(_cid(c)) for c in w["partition"]], "sort": r_sorts(w["sort"])}
+
+    def r_transform(t):
+        tag, v = _one(t, "Transform")
+        if tag == "From":
+            return {"From": r_tref(v)}
+        if tag == "Compute":
+            v = dict(_fields(v, ("id", "expr"), ("window", "is_aggregation"), "Compute"))
+            v["id"] = fc(_cid(v["id"]))
+            v["expr"] = r_expr(v["expr"])
+            if v.get("window") is not None:
+                v["window"] = r_window(v["window"])
+            return {"Compute": v}
+        if tag == "Select":
+            return {"Select": [fc(_cid(c)) for c in v]}
+        if tag == "Filter":
+            return {"Filter": r_expr(v)}
+        if tag == "Aggregate":
+            return {"Aggregate": {"partition": [fc(_cid(c)) for c in v["partition"]], "compute": [fc(_cid(c)) for c in v["compute"]]}}
+        if tag == "Sort":
+            return {"Sort": r_sorts(v)}
+        if tag == "Take":
+            return {"Take": {"range": r_range(v["range"]), "partition": [fc(_cid(c)) for c in v["partition"]], "sort": r_sorts(v["sort"])}}
+        if tag == "Join":
+            return {"Join": {"side": v["side"], "with": r_tref(v["with"]), "filter": r_expr(v["filter"])}}
+        if tag == "Append":
+            return {"Append": r_tref(v)}
+        if tag == "Loop":
+            return {"Loop": [r_transform(x) for x in v]}
+        _bad("unknown Transform", t)
+
+    def r_relation(r):
+        r = _fields(r, ("kind", "columns"), (), "Relation")
+        tag, v = _one(r["kind"], "RelationKind")
+        if tag == "Pipeline":
+            k = {"Pipeline": [r_transform(t) for t in v]}
+        elif tag == "SString":
+            k = {"SString": r_interp(v)}
+        elif tag == "BuiltInFunction":
+            k = {"BuiltInFunction": {"name": v["name"], "args": [r_expr(a) for a in v["args"]]}}
+        elif tag in ("ExternRef", "Literal"):
+            k = copy.deepcopy(r["kind"])
+        else:
+            _bad("unknown RelationKind", r["kind"])
+        return {"kind": k, "columns": copy.deepcopy(r["columns"])}
+
+    j = _fields(j, ("def", "tables", "relation"), (), "RelationalQuery")
+    return {"def": copy.deepcopy(j["def"]),
+            "tables": [{"id": ft(_cid(t["id"])), "name": t["name"], "relation": r_relation(t["relation"])} for t in j["tables"]],
+            "relation": r_relation(j["relation"])}
+
+
 # ------------------------------------------------------------------------------------------------ printing
 
 def _s(s):
